@@ -68,9 +68,23 @@ int vnaproperty_import_yaml_from_file(vnaproperty_t **rootptr, FILE *fp,
 		"%s error: empty YAML document", vyml.vyml_filename);
 	goto error;
     }
-    _vnaproperty_delete_all(rootptr);		/* replace existing content */
-    if (_vnaproperty_yaml_import(&vyml, rootptr, (void *)root) == -1) {
-	goto error;
+    /*
+     * Build the new tree aside and replace the existing content only
+     * when the whole document has been imported: a failure must not
+     * leave a half-built tree behind.
+     */
+    {
+	vnaproperty_t *new_root = NULL;
+
+	if (_vnaproperty_yaml_import(&vyml, &new_root, (void *)root) == -1) {
+	    int saved_errno = errno;
+
+	    _vnaproperty_delete_all(&new_root);
+	    errno = saved_errno;
+	    goto error;
+	}
+	_vnaproperty_delete_all(rootptr);
+	*rootptr = new_root;
     }
     yaml_document_delete(&document);
     yaml_parser_delete(&parser);
